@@ -8,6 +8,7 @@ import posixpath
 
 from gen import base as G
 from oracles import put as OP
+from sim import world as Wd
 
 ID = 'C01'
 LEVEL = 'exploration'
@@ -20,11 +21,57 @@ RULE = ('one simulated trash-put per case over a generated world (entry kind x a
         'outcome) tuples')
 ASSUMPTIONS = ['user directories in generated worlds are never named files/ or info/',
                'arguments of one command name pairwise unrelated entries']
-PROBES = ['trashed', 'untouched', 'home-trash', 'volume-trash', 'collision-suffix', 'dot-refused',
+PROBES = ['nested-operands-children-first', 'trashed', 'untouched', 'home-trash', 'volume-trash', 'collision-suffix', 'dot-refused',
           'interactive-declined', 'cross-volume-copy', 'mountroot-arg', 'environment-refuses-one-argument', 'refusal-met']
 
 
+def gen_nested(rng):
+    """the operands of one command lie inside one another and are given children first (find DIR -depth | xargs trash-put,
+    trash-put logs/*.old logs): each is trashed on its own, in the order given"""
+    L = G.make_layout(rng, nvol=0, xdg=rng.choice(['unset', 'set']))
+    steps, home = L['steps'], L['home']
+    top = rng.choice(['build', 'zz', 'a', 'logs dir'])
+    d = home + '/w/' + top
+    steps.append(['d', d + '/cache', 0o755])
+    steps.append(['f', d + '/cache/obj.bin', 'object', 0o644, 1_400_000_010])
+    steps.append(['f', d + '/keep.txt', 'sibling', 0o644, 1_400_000_011])
+    args = rng.choice([[d + '/cache/obj.bin', d + '/cache', d], [top + '/cache/obj.bin', top + '/cache', top], [d + '/cache', d], [top + '/cache/obj.bin', top]])
+    return {'world': {'mounts': L['mounts'], 'steps': steps},
+            'procs': [{'argv': ['trash-put'] + rng.choice([[], [], ['-v'], ['-f']]) + ['--'] + args, 'env': dict(L['env']), 'cwd': home + '/w', 'uid': L['uid']}],
+            'dirsalt': rng.randrange(1 << 30), 'note': {'nested_children_first': True}}
+
+
+def check_nested(sim, case, st):
+    sim.setup(case)
+    spec = case['procs'][0]
+    files = parse_args(spec['argv'])
+    cwd = spec.get('cwd', '/')
+    before = sim.snap()
+    locs = [a if a.startswith('/') else posixpath.join(cwd, a) for a in files]
+    r = sim.run(spec)
+    st.sims += 1
+    st.ops += r.nops
+    after = sim.snap()
+    st.probes['nested-operands-children-first'] += 1
+    res = []
+    left = [l for l in locs if l in after]
+    from model import trashinfo as MT
+    recorded = []
+    for k, v in after.items():
+        if '/info/' in k and k.endswith('.trashinfo') and k not in before:
+            try:
+                recorded.append(MT.pct_decode(MT.first_value(Wd.read_bytes(sim.root, k), b"Path")).decode('utf-8', 'surrogateescape'))
+            except Exception:
+                recorded.append(None)
+    if r.exit != 0 or left or sorted(recorded) != sorted(locs):
+        res.append(('C01/nested-operands-children-first', 'trash-put %r (cwd %r): exit %s, still in place %r, new .trashinfo files record %r (expected one per operand: %r)\nstderr: %s'
+                    % (spec['argv'], cwd, r.exit, left, sorted(recorded, key=str), sorted(locs), r.errs[-400:])))
+    return res
+
+
 def gen(rng):
+    if rng.random() < 0.015:
+        return gen_nested(rng)
     L = G.make_layout(rng, xdg=rng.choice(['unset', 'unset', 'set', 'link']), homename=rng.choice(G.ODD_HOMES) if rng.random() < 0.15 else 'u')
     steps = L['steps']
     home = L['home']
@@ -204,6 +251,8 @@ def opt_value(argv, name):
 
 
 def check(sim, case, st):
+    if case.get('note', {}).get('nested_children_first'):
+        return check_nested(sim, case, st)
     sim.setup(case)
     spec = case['procs'][0]
     argv = spec['argv']
